@@ -51,6 +51,10 @@ type peerSend struct {
 	req *messages.ServiceRequest
 	ack chan snapshot
 }
+type fireMsg struct {
+	fn  func()
+	ack chan bool // did fn panic
+}
 type peerSync struct {
 	ch chan []*messages.ServiceResponse
 }
@@ -74,6 +78,12 @@ func (s *svcActor) Receive(ctx actor.Context) {
 		s.w.restarted = true // a panic left Service.Receive: the supervisor restarts the actor
 	case *setDisp:
 		s.Service.SetAPIDispatcher(m.d)
+		return
+	case *fireMsg:
+		func() {
+			defer func() { m.ack <- recover() != nil }()
+			m.fn()
+		}()
 		return
 	case *barrier:
 		m.ack <- snapshot{fell: s.w.fell, restarted: s.w.restarted}
@@ -153,6 +163,25 @@ func (w *world) request(d as.IAPIDispatcher, rid int32, route string, body []byt
 		return nil, snap, false
 	}
 	return rsps, snap, true
+}
+
+// fire runs fn on the service goroutine and returns the responses the peer received from it
+func (w *world) fire(fn func()) (rsps []*messages.ServiceResponse, panicked bool, ok bool) {
+	ack := make(chan bool, 1)
+	system().Root.Send(w.svcPID, &fireMsg{fn: fn, ack: ack})
+	select {
+	case panicked = <-ack:
+	case <-time.After(ackTimeout):
+		return nil, false, false
+	}
+	ch := make(chan []*messages.ServiceResponse, 1)
+	system().Root.Send(w.peerPID, &peerSync{ch: ch})
+	select {
+	case rsps = <-ch:
+	case <-time.After(ackTimeout):
+		return nil, panicked, false
+	}
+	return rsps, panicked, true
 }
 
 // classify maps a ServiceResponse to the model's rsp
